@@ -115,7 +115,11 @@ def r33_4(ctx, facts):
         raise __import__("pv.facts", fromlist=["AnchorMissing"]).AnchorMissing("generate_name: no plain return of the name")
     for bi, line in plain:
         tests = {}
+        from .. import cfg as _cfg
+        domg = _cfg.Dom(g)
         for a, s, k in transitive_control_deps(g, bi, cd=cd):
+            if not domg.dominates(a, bi):
+                continue
             if k and k[0] == "call" and (k[1].path or "").split("::")[-1] in ("contains", "starts_with", "any", "all", "is_empty"):
                 cl = closure_of_arg_any(facts, g, k[1])
                 pred = None
